@@ -233,6 +233,7 @@ def run_shared(ctx, spec, rng, viol):
                 lo, hi = model.live(ev[1])
                 viol("exhausted-although-capacity", f"[shared] call {ev[2]}: budget_exhausted reported at t={ev[1]} while only {hi} of {spec['max']} tokens were live", hist)
                 return False
+            ctx.cnt["policy_refusals"] += 1
     # per call and attempt: tokens <-> retry events
     by = {}
     for ev in sh.log:
@@ -265,8 +266,6 @@ def run_shared(ctx, spec, rng, viol):
             if s["refused"] and not s["exhausted"]:
                 viol("refusal-not-reported", f"[shared] call {cid} attempt {s['attempt']}: consume() refused but no budget_exhausted event", hist)
                 return False
-            if s["refused"]:
-                ctx.cnt["policy_refusals"] += 1
             ctx.cnt["policy_retries"] += s["retry"]
     worst = window_violations(sorted(retry_times), spec["window"], spec["max"])
     ctx.mx("max_retries_seen_in_a_window", worst)
